@@ -76,7 +76,9 @@ Sigs == <<  <<>>,
             << [n |-> "to_addr", t |-> "String"], [n |-> "amount", t |-> "Uint128"] >>,
             << [n |-> "flag", t |-> "bool"], [n |-> "opt", t |-> "OptU32"], [n |-> "tags", t |-> "VecString"] >>,
             << [n |-> "inner", t |-> "Nested"] >>,
-            << [n |-> "data", t |-> "Binary"], [n |-> "x", t |-> "String"] >> >>
+            << [n |-> "data", t |-> "Binary"], [n |-> "x", t |-> "String"] >>,
+            \* an integer wider than 64 bits, written as a JSON number by the part's own encoder
+            << [n |-> "big", t |-> "U128"], [n |-> "n", t |-> "u32"] >> >>
 
 Mk(name, kind, j) ==
     [name |-> name, kind |-> kind, args |-> Sigs[Mod(j, Len(Sigs)) + 1],
